@@ -34,11 +34,11 @@ RULE = (
     "expected error was raised (error strata); distinct = distinct digest of the logged input."
 )
 STRATA = {
-    "upgma": (2500, 90000),
-    "nj": (2500, 90000),
-    "random_tree": (2200, 80000),
-    "invalid_matrix": (500, 12000),
-    "construct_errors": (300, 8000),
+    "upgma": (5000, 130000),
+    "nj": (5000, 130000),
+    "random_tree": (4500, 110000),
+    "invalid_matrix": (1000, 20000),
+    "construct_errors": (500, 10000),
 }
 REQUIRED_ORACLES = [
     "leaves_are_range_n", "upgma_ultrametric", "upgma_node_height_avg_linkage",
@@ -689,7 +689,7 @@ def law_eq_variant(ctx, rng, tree, m, n):
     ctx.oracle("eq_hash_consistent")
     v = m_copy(m)
     leaf = m_leaves(v)[int(rng.integers(n))]
-    leaf.distance = float(np.float32(leaf.distance * 2.0 + 1.0))
+    leaf.distance = float(np.float32(leaf.distance + abs(leaf.distance) + 1.0))      # never the old value (2d+1 is, for d=-1)
     tv = build_real(ctx, v, rng, plain=True)
     ctx.op("Tree.__eq__")
     if tv == tree or tree == tv:
@@ -1286,8 +1286,6 @@ def selftest(ctx):
             same = (a.parent is b.parent and a.distance == b.distance)
             assert (m_canon(v, True) == m_canon(t, True)) == same
             assert not same_tree_problems(t, w, n, 0.0)
-            lf = m_leaves(v)[0]
-            lf.distance += 1.0
             v2 = m_copy(t)
             m_leaves(v2)[0].distance += 1.0
             assert same_tree_problems(t, v2, n, 1e-6)
@@ -1326,7 +1324,7 @@ def selftest(ctx):
     D = np.array([[0, 1, 7, 7, 9], [1, 0, 7, 6, 8], [7, 7, 0, 2, 4], [7, 6, 2, 0, 3], [9, 8, 4, 3, 0]], dtype=float)
     t = _naive_upgma(D)
     hs = sorted(round(float(np.mean([d for (_, d, _) in m_below(t)[id(x)]])), 9) for x in m_nodes(t) if x.children)
-    assert hs == [0.5, 1.0, 1.75, 3.75], hs
+    assert hs == [0.5, 1.0, 1.75, round(44 / 12, 9)], hs
     # 4. additive oracle
     for _ in range(25):
         n = int(rng.integers(4, 10))
@@ -1375,7 +1373,6 @@ def _probe_as_binary_node(ctx):
         ctx.log("as_binary(TreeNode)", m_log(m))
         for x in reversed(m_nodes(m)):
             x.ref = TreeNode(index=x.index) if x.children is None else TreeNode([c.ref for c in x.children], [c.distance for c in x.children])
-        check_as_binary_node(ctx, rng, m) if m.children is None else None
         ctx.op("as_binary_node")
         ctx.oracle("as_binary_returns_node")
         try:
